@@ -8,7 +8,7 @@ _PORT_RULE = ("cases from one PRNG (VERIF_SEED): a real chmux connection with on
               "(paused Tokio clock) and the frames that appeared on the wire in both directions, the messages the receiver obtained and the "
               "sender's status are compared with the model's big step; a case is non-trivial unless it is malformed; distinct = distinct input")
 PROP = {
-    "props_files": ["Props/C03.v"],
+    "props_files": ["Props/C03.v", "Props/C03b.v"],
     "jobs": [{"component": "port", "comp_num": 1, "quick": 1600, "thorough": 60000, "timeout": 3000},
              {"component": "net", "comp_num": 70, "quick": 240, "thorough": 10000, "args": ["--stream", "4"], "timeout": 3000},
              {"component": "net", "comp_num": 70, "quick": 480, "thorough": 20000, "args": ["--stream", "6"], "timeout": 3000}],
@@ -16,7 +16,7 @@ PROP = {
     "level_text": "Theorems (Coq, closed under the global context), for every configuration and every schedule: conservation of credits as an equality (no leak after any history of completed, failed or cancelled operations); the threshold lemma (an idle receiver leaves the sender at least four credits for every buffer >= 4); deadlock freedom (a running operation on an open port always has an enabled next step unless frames or credits are still under way, in which case an internal action is enabled); a measure that strictly decreases with every frame handed over and every successful credit request (no livelock). Tied to the code by the big-step differential with cancellation while waiting for credits and for a queue slot, and by the oracle `no operation pending after the drain phase`.",
     "level_note": "Trusted: Coq kernel, extraction/mrun (sample re-checked in-kernel), harness, quiescence barrier, Tokio primitives (mpsc FIFO, wake-ups). "
                   "The dispatcher between the event queue and the per-port queue is modelled as FIFO stages (TMux/TLink); cross-port interleaving is "
-                  "covered by the fifo-projection argument of the Mux model, not here. PARTIAL: the cross-port statement (a receiver that does not consume never blocks other ports of the connection) is exercised by a two-endpoint stream (net stream 4: a cancelled receive with a parked credit return, one-slot event queue, then traffic and closes on another port; net stream 6: 1-3 credit-starved ports each with a pending send or multi-port open request, event queue of 1-2 slots, then traffic on another port, then the starved receivers consume and every pending operation must complete) and argued from the dispatcher model (its handlers are total and never wait on per-port receiver state), but not proved as a theorem; lost wake-ups inside Tokio cannot be a model behaviour and would surface only as a pending operation in the harness oracle.",
+                  "covered by the fifo-projection argument of the Mux model, not here. The cross-port statement is proved on a separate model (Chmux/SharedQueue.v, Props/C03b.v): the endpoint's one bounded event queue with FIFO permits (given also to a waiter that is not being polled), the order of the waits in Sender::send/send_chunks/connect (credits first, then a slot, then hand-over without a further wait) and the credit return (try, else a spawned task): after any history, system actions alone terminate within a measure and leave every port idle or out of its own credits, whatever the other ports' receivers do; the queue bound holds. That model is tied to the code only by oracle streams (net stream 4: a cancelled receive whose credit return waits for a slot, one-slot queue, then traffic and closes on another port; net stream 6: 1-3 credit-starved ports each with a pending send or multi-port open request, 1-2 slots, traffic on another port, then the starved receivers consume and every pending operation must complete), not by an exact differential. Lost wake-ups inside Tokio cannot be a model behaviour and would surface only as a pending operation in the harness oracle.",
     "trivial_sig": r"malformed",
     "rule": _PORT_RULE,
     "assumptions": ["paused-clock quiescence barrier", "one port per connection in this component; port messages of other ports are not held back"],
